@@ -330,7 +330,7 @@ def clamp_rule(chk, db):
         chk.analysis_broken("CLAMP: no length clamp found in basic_inplace_string")
 
 
-META_EXTRA = 'SLOTS-W / SLOTS-U (grown characters written; range writes below the size slot); NULFREE (no NUL-sensitive routine reachable from counted operations); CLAMP (length clamps measure one object).'
+META_EXTRA = "SLOTS-W / SLOTS-U (grown characters written; range writes below the size slot); POST (size postconditions); NULFREE (no NUL-sensitive routine reachable from counted operations, overloads selected by argument kind); EXIT (early exits of the searches vs the specification's feasibility predicate); CLAMP (length clamps measure one object); PARAM."
 META = (META[0] + " " + META_EXTRA, META[1])
 
 
